@@ -303,6 +303,8 @@ func c13(c *Ctx) {
 		}
 	}
 	r.Floor("LEB128 rows (LEB.len, LEB.write, LEB.inv)", lebRules(c, "full"), 42)
+	carryOrderRule(c, "codecs/av1/frame.(*AV1).ReadFrames", "obuBuffer")
+	carryOrderRule(c, "codecs.(*AV1Depacketizer).Unmarshal", "buffer")
 	entries = append(entries, av1Setup(c)...)
 	boundsFor(c, "C13", entries)
 	r.Infof("CTR.lenprefix: %d length-prefix/data pair(s) recognised and reached", len(c.lenPairsSeen))
@@ -932,4 +934,28 @@ func opusRules(c *Ctx) int {
 		r.Add("STRUCT.opus", "codecs.OpusPacket", "embeds the audio mixin", "", emb, "OpusPacket does not embed audioDepacketizer")
 	}
 	return n
+}
+
+// opusCountHooks: "Opus ignores the MTU and returns the input as one fragment": on every return of
+// OpusPayloader.Payload the number of fragments is 1 for a non-nil input (an empty one included) and 0 for nil:
+// len(result) = 1 - isnil(payload), and the fragment is as long as the input.
+func opusCountHooks(c *Ctx) *bounds.Hooks {
+	fn := c.Prog.Func("codecs.(*OpusPayloader).Payload")
+	if fn == nil || len(fn.Params) < 3 {
+		return nil
+	}
+	payload := fn.Params[2]
+	return &bounds.Hooks{AtReturn: func(h *bounds.Helper, f *ssa.Function, ret *ssa.Return, d *bounds.Disjunct) {
+		if f != fn || len(ret.Results) != 1 {
+			return
+		}
+		nl := d.NilLin(payload)
+		ln := d.Len(ret.Results[0])
+		if nl == nil || ln == nil {
+			h.Oblige("Opus returns exactly one fragment for every non-nil input", false, "nil-ness of the input or the fragment count is not tracked")
+			return
+		}
+		q := lin.EQ(ln, lin.Const(1).Sub(nl))
+		h.Oblige("Opus returns exactly one fragment for every non-nil input", d.Entails(q...), d.Describe(q[0])+" ; "+d.Describe(q[1]))
+	}}
 }
